@@ -125,9 +125,20 @@ def run():
         b = wide() if i % 3 else [wide(0)]
         if i % 4 == 0:
             b = docs.mutate(a, r)
+        if i % 5 == 4:
+            # long containers (more than 64 children): lists, and mappings that become FixedKeyDictNodes under strategy none
+            n_long = r.randint(65, 90)
+            if i % 2:
+                a = list(range(n_long))
+                b = [x for x in a if x != 5] + [100]
+            else:
+                a = {"k%02d" % j: j for j in range(n_long)}
+                b = dict(a)
+                b.pop("k05")
+                b["new"] = [1, 2]
         fa = mats.file(json.dumps(a).encode(), ".json", "a")
         fb = mats.file(json.dumps(b).encode(), ".json", "b")
-        for opts, mode in ((docs.ALL_OPTS[6], []), (docs.ALL_OPTS[0], []), (docs.ALL_OPTS[6], ["-e"]))[: (2 if t == "quick" and i % 2 else 3)]:
+        for opts, mode in ((docs.ALL_OPTS[6], []), (docs.ALL_OPTS[0], []), (docs.ALL_OPTS[6], ["-e"]))[: (2 if t == "quick" and i % 2 and i % 5 != 4 else 3)]:
             argv = [fa, fb, "--no-status", "--no-color"] + clim.opt_args(opts) + mode
             gi = len(groups_meta)
             groups_meta.append({"a": a, "b": b, "argv": argv[2:]})
